@@ -1,7 +1,7 @@
 // C11 — constraint-removing reparametrisation is a faithful change of variables
 // VF-VARIANT: san
 // VF-RULE: E2 product spaces, every index executed. (1) bare transforms: every (bound pair | bound) x scale x {tanh,tan} x value-lattice point for the round trip original->transformed->original; every step k of the transformed-coordinate lattice x=-30..30 (step 1/8) for monotonicity (step k vs a fixed anchor step) and for first/second derivative vs central differences of the implementation's own map. (2) wrapper: every constraint kind (8 interval shapes + none + non-interval) in every slot for 1 and 2 parameters, cyclic assignments for 3..5, x bound choice x initial value (incl. at a closed bound and 1e-9 from a bound) x wrapper class (plain/first/second order) x with/without sub-list x transformed-coordinate lattice point. A case is non-trivial when the transform is not the identity and the lattice step / value lies where the map is not saturated (round trip: always).
-// VF-BOUND: bounds from {-1000,-1,0,2.5,1000} instead of all of [-1e3,1e3]; scales {0.1,1,10} (thorough adds 0.25,4) instead of [0.1,10]; 5..9 values per interval (mid, 10%, 1e-9 from either bound, thorough adds 1e-6 and 1e-3) instead of every value; transformed coordinates on the lattice -30..30 step 1/8 (bare transforms, 1-parameter wrapper in thorough; step 1/2 in quick) and coarse 11- / 5-point lattices for 2 / 3..5 parameters instead of all reals in [-30,30]; 3..5-parameter functions take the 10 cyclic kind assignments instead of all 10^n
+// VF-BOUND: bounds from {-1000,-1,0,2.5,1000} (thorough, bare transforms: also -999,1e-3,999, i.e. 28 pairs) instead of all of [-1e3,1e3]; scales {0.1,1,10} (thorough adds 0.25,4) instead of [0.1,10]; 5..9 values per interval (mid, 10%, 1e-9 from either bound, thorough adds 1e-6 and 1e-3) instead of every value; transformed coordinates on the lattice -30..30 step 1/8 (bare transforms, 1-parameter wrapper in thorough; step 1/2 in quick) and coarse 11- / 5-point lattices for 2 / 3..5 parameters instead of all reals in [-30,30]; 3..5-parameter functions take the 10 cyclic kind assignments instead of all 10^n
 // VF-LEVEL: bounded-exhaustive differential check on the real classes: every listed configuration x value x lattice point is executed; tolerances are rounding/truncation bounds derived next to their use; nothing sampled
 // VF-ASSUME: libm tanh/atanh/tan/atan/exp/log accurate to 2 ulp;; the quadratic test objective (harness code) has the gradient/Hessian it reports;; central differences with h=scale*2^-12 and the stated truncation bound represent 'agree with finite differences';; behaviour between lattice points is not observed
 // VF-TECHNIQUE: exhaustive enumeration of configuration x value lattices on the real code; round trip, anchored monotonicity, finite-difference derivative oracle, chain-rule composition with a known quadratic
@@ -15,6 +15,7 @@
 #include <Bpp/Io/OutputStream.h>
 #include <cmath>
 #include <cfloat>
+#include <algorithm>
 using namespace bpp;
 using vf::num; using vf::str;
 
@@ -23,6 +24,16 @@ static const double TINYC = 1e-12;              // the nudge the wrapper documen
 static const double BND[5] = {-1000, -1, 0, 2.5, 1000};
 // bound pairs lb<ub, simplest first
 static const int PAIRS[10][2] = {{1, 3}, {2, 3}, {1, 2}, {2, 4}, {3, 4}, {1, 4}, {0, 2}, {0, 1}, {0, 3}, {0, 4}};
+// bare-transform spaces: quick uses the 10 pairs above; thorough adds narrow intervals far from 0 and a tiny bound (28 pairs over 8 values)
+static std::vector<std::pair<double, double>> pairsFor(bool th) {
+  std::vector<std::pair<double, double>> r; for (auto& p : PAIRS) r.push_back({BND[p[0]], BND[p[1]]});
+  if (th) {
+    static const double B8[8] = {-1000, -999, -1, 0, 1e-3, 2.5, 999, 1000};
+    for (int i = 0; i < 8; ++i) for (int j = i + 1; j < 8; ++j) { std::pair<double, double> q(B8[i], B8[j]); if (std::find(r.begin(), r.end(), q) == r.end()) r.push_back(q); }
+  }
+  return r;
+}
+static std::vector<double> boundsFor(bool th) { std::vector<double> r = {0, -1, 2.5, 1000, -1000}; if (th) { r.push_back(1e-3); r.push_back(999); r.push_back(-999); } return r; }
 static const int NX = 481;                       // x = -30 + k/8, k = 0..480
 static inline double latx(int k) { return -30.0 + k / 8.0; }
 static inline double max3(double a, double b, double c) { return std::max(a, std::max(b, c)); }
@@ -110,11 +121,13 @@ static void bareSpaces(vf::Runner& R, bool th) {
   int nsc = (int)sc.size();
   int nval = (int)intervalValues(0, 1, th).size();
   std::string tier = th ? "scales5:values9" : "scales3:values5";
+  std::vector<std::pair<double, double>> prs = pairsFor(th); int npr = (int)prs.size();
+  std::vector<double> hb = boundsFor(th); int nhb = (int)hb.size();
 
   // ---- interval transforms: round trip
-  R.space("interval:roundtrip:pairs10:" + tier + ":tanh,tan", (uint64_t)nval * 2 * nsc * 10, [=](uint64_t idx, vf::Case& c) {
-    std::vector<int> d = vf::digits(idx, {nval, 2, nsc, 10});
-    double lb = BND[PAIRS[d[3]][0]], ub = BND[PAIRS[d[3]][1]], s = sc[d[2]]; bool hyper = d[1] == 0;
+  R.space("interval:roundtrip:pairs" + str(npr) + ":" + tier + ":tanh,tan", (uint64_t)nval * 2 * nsc * npr, [=](uint64_t idx, vf::Case& c) {
+    std::vector<int> d = vf::digits(idx, {nval, 2, nsc, npr});
+    double lb = prs[d[3]].first, ub = prs[d[3]].second, s = sc[d[2]]; bool hyper = d[1] == 0;
     double v = intervalValues(lb, ub, th)[d[0]];
     std::string cls = hyper ? "interval-tanh" : "interval-tan";
     std::string desc = cls + " ]" + num(lb) + "," + num(ub) + "[ scale " + num(s) + " value " + num(v);
@@ -140,9 +153,9 @@ static void bareSpaces(vf::Runner& R, bool th) {
   }, 5.0);
 
   // ---- interval transforms: lattice steps (monotone + derivatives)
-  R.space("interval:lattice:x-30..30/8:pairs10:" + std::string(th ? "scales5" : "scales3") + ":tanh,tan", (uint64_t)NX * 2 * nsc * 10, [=](uint64_t idx, vf::Case& c) {
-    std::vector<int> d = vf::digits(idx, {NX, 2, nsc, 10});
-    double lb = BND[PAIRS[d[3]][0]], ub = BND[PAIRS[d[3]][1]], s = sc[d[2]]; bool hyper = d[1] == 0; int k = d[0];
+  R.space("interval:lattice:x-30..30/8:pairs" + str(npr) + ":" + std::string(th ? "scales5" : "scales3") + ":tanh,tan", (uint64_t)NX * 2 * nsc * npr, [=](uint64_t idx, vf::Case& c) {
+    std::vector<int> d = vf::digits(idx, {NX, 2, nsc, npr});
+    double lb = prs[d[3]].first, ub = prs[d[3]].second, s = sc[d[2]]; bool hyper = d[1] == 0; int k = d[0];
     Tf T; T.cls = hyper ? "interval-tanh" : "interval-tan"; T.scale = s; T.M0 = max3(1, std::fabs(lb), std::fabs(ub));
     T.desc = T.cls + " ]" + num(lb) + "," + num(ub) + "[ scale " + num(s);
     try {
@@ -156,10 +169,9 @@ static void bareSpaces(vf::Runner& R, bool th) {
 
   // ---- half-line transforms (unit scale only: the documented formula is continuous only there)
   int noff = th ? 9 : 6;
-  R.space("halfline:roundtrip:bounds5:offsets" + str(noff) + ":pos,neg", (uint64_t)noff * 2 * 5, [=](uint64_t idx, vf::Case& c) {
-    std::vector<int> d = vf::digits(idx, {noff, 2, 5});
-    int bi[5] = {2, 1, 3, 4, 0};
-    double b = BND[bi[d[2]]]; bool pos = d[1] == 0; double off = HOFF[d[0]];
+  R.space("halfline:roundtrip:bounds" + str(nhb) + ":offsets" + str(noff) + ":pos,neg", (uint64_t)noff * 2 * nhb, [=](uint64_t idx, vf::Case& c) {
+    std::vector<int> d = vf::digits(idx, {noff, 2, nhb});
+    double b = hb[d[2]]; bool pos = d[1] == 0; double off = HOFF[d[0]];
     double v = pos ? b + off : b - off;
     std::string cls = pos ? "halfline-pos" : "halfline-neg";
     std::string desc = cls + (pos ? " ]" + num(b) + ",+inf[" : " ]-inf," + num(b) + "[") + " value " + num(v);
@@ -182,10 +194,9 @@ static void bareSpaces(vf::Runner& R, bool th) {
     } catch (bpp::Exception& e) { c.fail("transform|exception|" + cls, desc + ": " + line1(e.what())); }
   }, 5.0);
 
-  R.space("halfline:lattice:x-30..30/8:bounds5:pos,neg", (uint64_t)NX * 2 * 5, [=](uint64_t idx, vf::Case& c) {
-    std::vector<int> d = vf::digits(idx, {NX, 2, 5});
-    int bi[5] = {2, 1, 3, 4, 0};
-    double b = BND[bi[d[2]]]; bool pos = d[1] == 0; int k = d[0];
+  R.space("halfline:lattice:x-30..30/8:bounds" + str(nhb) + ":pos,neg", (uint64_t)NX * 2 * nhb, [=](uint64_t idx, vf::Case& c) {
+    std::vector<int> d = vf::digits(idx, {NX, 2, nhb});
+    double b = hb[d[2]]; bool pos = d[1] == 0; int k = d[0];
     Tf T; T.cls = pos ? "halfline-pos" : "halfline-neg"; T.scale = 1; T.M0 = std::max(1.0, std::fabs(b));
     T.desc = T.cls + (pos ? " ]" + num(b) + ",+inf[" : " ]-inf," + num(b) + "[");
     try {
